@@ -1,6 +1,7 @@
 import Toq.Driver.Util
 import Toq.Driver.QJson
 import Toq.Model.Entangle
+import Toq.Model.EntangleSk
 /-! Driver handlers for C14: exact Schmidt rank / product test / purity / closed forms on Gaussian-rational data.
 
 Complex rational arrays travel as `{"den": D, "re": [ints], "im": [ints]}` (entries `(re + i·im)/D`, row-major);
@@ -62,13 +63,29 @@ def hPlanted : Handler := fun j => do
     ("psi", qiArrayJson ψa), ("norm2", qiJson n2),
     ("rank", Json.num (schmidtRankVec dA dB ψ : Nat)), ("support", Json.num (supportSize s : Nat))]
 
+/-- the raw `dim` argument: `"dimarg": null` (omitted), an integer, or `[dA, dB]`; absent key = not requested -/
+def getDimArg (j : Json) : Except String (Option DimArg) := do
+  match j.getObjVal? "dimarg" with
+  | .error _ => return none
+  | .ok .null => return some .omitted
+  | .ok (.arr a) =>
+    if a.size != 2 then throw "dimarg: expected [dA, dB]"
+    return some (.pair (← a[0]!.getNat?) (← a[1]!.getNat?))
+  | .ok v => return some (.scalar (← v.getNat?))
+
+def optNatJson : Option Nat → Json
+  | some n => Json.num (n : Nat)
+  | none => Json.null
+
 /-- exact data of a bipartite vector -/
 def hVec : Handler := fun j => do
   let (dA, dB) ← getSize j
   let a ← getQIArray j "psi"
   if a.size != dA * dB then throw "vector size mismatch"
   let ψ := vecFn a
+  let arg ← getDimArg j
   return Json.mkObj [
+    ("rank_dimarg", optNatJson (arg.bind fun g => schmidtRankArg (dA * dB) g ψ)),
     ("rank", Json.num (schmidtRankVec dA dB ψ : Nat)), ("rank_spec", Json.num (schmidtRankSpec dA dB ψ : Nat)),
     ("rank_old", Json.num (schmidtRankVecOld dA dB ψ : Nat)),
     ("is_product", Json.bool (isProductVec dA dB ψ)),
@@ -85,7 +102,9 @@ def hOp : Handler := fun j => do
   let ampA := arrayOfMat (dA * dA) (dB * dB) (operatorAmp dA dB ρ)
   let amp := matFn ampA (dB * dB)
   let spec := realignAmp dA dB ρ
+  let arg ← getDimArg j
   return Json.mkObj [
+    ("rank_dimarg", optNatJson (arg.bind fun g => schmidtRankOpArg N g ρ)),
     ("rank", Json.num (rankQ (dA * dA) (dB * dB) amp : Nat)), ("rank_spec", Json.num (schmidtRankOpSpec dA dB ρ : Nat)),
     ("mirror_eq_spec", Json.bool (eqM (dA * dA) (dB * dB) amp spec)),
     ("is_product", Json.bool (isProductOp dA dB ρ)),
@@ -149,8 +168,75 @@ def hClosed : Handler := fun j => do
     ("concurrence", ratJson (concurrenceClosed (s.getD 0 0) (s.getD 1 0))),
     ("sk2", Json.arr (((List.range s.length).map fun k => ratJson (skVecNormSq p (k + 1))).toArray))]
 
+/-! ### S(k) operator norm certificates (matrices in the `QJson` dyadic encoding `{"e":k,"re":[…],"im":[…]}`)
+
+* `c14_sk_upper_ppt {"dA","dB","X","Y","LY","lam","LS"}` → `{"ok":[num,den]}` = the bound returned by the verified `checkSkUpperPPT`;
+* `c14_sk_upper_red {"dA","dB","k","X","Y","LY","lam","LS"}` → the bound returned by `checkSkUpperRed k`;
+* `c14_sk_lower {"dA","dB","k","X","Xs","Ys"}` → the Rayleigh quotient returned by `checkSkLower`;
+rejections name the first failed condition (diagnostic only: the verdict is the one of the verified checker). -/
+
+/-- why `psdCert A L` fails (`none` when it holds) -/
+def psdWhy {n k : Nat} (A : EMat n n) (L : EMat n k) : Option String :=
+  if !A.isHermitian then some "not_hermitian"
+  else
+    let R := A - L.mul L.ct
+    if !R.isHermitian then some "residual_not_hermitian"
+    else
+      match (List.finRange n).find? fun i =>
+          !decide (EMat.sumFinQ n (fun j => if j = i then 0 else (R.get i j).abs1) ≤ (R.get i i).re) with
+      | some i => some s!"residual_not_diag_dominant_row_{i.val}"
+      | none => if EMat.psdCert A L then none else some "psdCert_failed"
+
+def skAnswer (r : Option Rat) (why : Unit → String) : Json :=
+  match r with
+  | some v => Json.mkObj [("ok", ratJson v)]
+  | none => reject (why ())
+
+def hSkUpperPPT : Handler := fun j => do
+  let (dA, dB) ← getSize j
+  let X ← getEMat j "X" (dA * dB) (dA * dB)
+  let Y ← getEMat j "Y" (dA * dB) (dA * dB)
+  let LY ← getEMat j "LY" (dA * dB) (dA * dB)
+  let LS ← getEMat j "LS" (dA * dB) (dA * dB)
+  let lam ← getRat j "lam"
+  return skAnswer (checkSkUpperPPT X Y LY lam LS) fun _ =>
+    match psdWhy Y LY with
+    | some s => s!"Y_{s}"
+    | none =>
+      match psdWhy (slackPPT X Y lam) LS with
+      | some s => s!"slack_{s}"
+      | none => "rejected"
+
+def hSkUpperRed : Handler := fun j => do
+  let (dA, dB) ← getSize j
+  let k ← getNat j "k"
+  let X ← getEMat j "X" (dA * dB) (dA * dB)
+  let Y ← getEMat j "Y" (dA * dB) (dA * dB)
+  let LY ← getEMat j "LY" (dA * dB) (dA * dB)
+  let LS ← getEMat j "LS" (dA * dB) (dA * dB)
+  let lam ← getRat j "lam"
+  return skAnswer (checkSkUpperRed k X Y LY lam LS) fun _ =>
+    match psdWhy Y LY with
+    | some s => s!"Y_{s}"
+    | none =>
+      match psdWhy (slackRed k X Y lam) LS with
+      | some s => s!"slack_{s}"
+      | none => "rejected"
+
+def hSkLower : Handler := fun j => do
+  let (dA, dB) ← getSize j
+  let k ← getNat j "k"
+  let X ← getEMat j "X" (dA * dB) (dA * dB)
+  let Xs ← getEMat j "Xs" dA k
+  let Ys ← getEMat j "Ys" dB k
+  return skAnswer (checkSkLower X Xs Ys) fun _ =>
+    if !colsOrthogonal Ys then "Ys_columns_not_orthogonal"
+    else if !decide (0 < Toq.Sep.normSqV (skVector Xs Ys)) then "zero_vector"
+    else "rejected"
+
 def handlers : List (String × Handler) :=
   [("c14_planted", hPlanted), ("c14_vec", hVec), ("c14_op", hOp), ("c14_local_unitary_op", hLocalUnitaryOp),
-   ("c14_rank_cert", hRankCert), ("c14_closed", hClosed)]
+   ("c14_rank_cert", hRankCert), ("c14_closed", hClosed),
+   ("c14_sk_upper_ppt", hSkUpperPPT), ("c14_sk_upper_red", hSkUpperRed), ("c14_sk_lower", hSkLower)]
 
 end Toq.Driver.C14
